@@ -202,6 +202,7 @@ def main(argv: Optional[List[str]] = None) -> int:
     prop = a.prop
     tier = 'thorough' if a.tier == 'thorough' else 'quick'
     seed = int(os.environ.get('VERIF_SEED', '0') or 0)
+    os.environ['VERIF_TIER'] = tier  # contract modules that enumerate cases read the tier from here
     from contracts import index as cindex
 
     if prop not in cindex.PROPS:
